@@ -411,6 +411,7 @@ func (f *FnEnc) execInstr(ins ssa.Instruction) bool {
 		if res != nil {
 			f.vals[v] = res
 		}
+		f.recordCall(&v.Call, res)
 		if f.reach.S == "false" {
 			return true
 		}
